@@ -41,7 +41,7 @@ BROKEN = ['version: "3"\nstruct S { a @0: Nope, }', 'version: "3"\nstruct $', 'v
 @st.composite
 def det_schema(draw) -> M.Schema:
     cfg = CS.CanCfg(max_msgs=3, max_enums=2, enums_max_bits=8, widths=st.sampled_from([8, 16, 32, 64]),
-                    signed=True, nested=False, arrays=False, mux=False)
+                    signed=True, nested=False, arrays=False, mux=True, mux_two_selectors=True, max_leaf_fields=7)
     s = draw(CS.can_schema(cfg))
     # device names whose snake/pascal conversions collide ("Ecu"/"ecu", "BmsMaster"/"bms_master") share generated paths
     if draw(st.integers(0, 3)) == 0:
